@@ -2,7 +2,7 @@
     Only ExtrOcamlBasic is used: Z, positive, nat stay the extracted inductives. *)
 Require Extraction.
 Require Import ExtrOcamlBasic.
-From IsoTp Require Import Model.Layer Model.Sock Model.Params Model.Threaded Spec.Segment Spec.Kernel.
+From IsoTp Require Import Model.Layer Model.Sock Model.Params Model.Threaded Model.Joint Spec.Segment Spec.Kernel.
 
 Extraction Language OCaml.
 Separate Extraction
@@ -17,4 +17,5 @@ Separate Extraction
   Sock.wsock0 Sock.w_set_opts Sock.w_set_fc_opts Sock.w_set_ll_opts Sock.w_bind Sock.w_send Sock.w_recv Sock.w_close
   Params.validate
   Threaded.tl_init Threaded.lstep Threaded.run_sched
+  Joint.cstep Joint.crun Joint.jstep Joint.init_net
   Kernel.kinit Kernel.kapply Kernel.kernel_tx_id Kernel.kernel_tx_prefix Kernel.kernel_accepts Kernel.kernel_rx_byte.
